@@ -595,3 +595,24 @@ Definition user_global_default (u : config) : str := d_global (c_defaults u).
 (* the only Features value that UnmarshalYAML ever produces is "remote.check-version: true" *)
 Definition features_back (f : option (option bool)) : option (option bool) :=
   match f with Some (Some true) => Some (Some true) | _ => None end.
+
+(* a YAML document never repeats a key within one mapping (yaml.v3 rejects that); the last clause
+   excludes the one silly document whose global default object has an entry "default" of its own *)
+Definition rule_doc_wf (j : jval) : bool :=
+  match j with JObj m => distinct (keys m) | _ => true end.
+
+Definition cat_doc_wf (j : jval) : bool :=
+  match j with
+  | JObj rm => distinct (keys rm) && forallb (fun nr => rule_doc_wf (snd nr)) rm
+  | _ => true
+  end.
+
+Definition rules_doc_wf (rules : list (str * jval)) : bool :=
+  distinct (keys rules) && forallb (fun kv => cat_doc_wf (snd kv)) rules &&
+  match aget rules DEFAULT with Some (JObj m) => negb (str_in DEFAULT (keys m)) | _ => true end.
+
+Definition doc_wf (doc : jval) : bool :=
+  match doc with
+  | JObj top => match aget top RULES with Some (JObj m) => rules_doc_wf m | _ => true end
+  | _ => true
+  end.
